@@ -5,7 +5,7 @@ import ast
 import re
 
 from ..core import AnalysisError, own_nodes, short, unparse
-from ..rules import defs, dsp, exa, fmt, nul, shape
+from ..rules import lint, defs, dsp, exa, fmt, nul, shape
 from . import common
 
 EXPLANATION = (
@@ -147,4 +147,7 @@ def run(ctx):
   check_time_expressions(ctx)
   shape.check_line_breaks(ctx, ix.func("ttconv.srt.reader:_TextParser.handle_data"))
   shape.check_span_pairing(ctx, ix.func("ttconv.srt.reader:_TextParser.handle_starttag"), ix.func("ttconv.srt.reader:_TextParser.handle_endtag"))
+  lint.falsy_numeric_default(ctx, common.mods(ctx, ["ttconv.srt.reader", "ttconv.utils"]))
+  from ..selfcheck import falsy_default_fixture_matches
+  ctx.check(falsy_default_fixture_matches(), "LINT-i", "fixture|a number defaulted with `or` is detected", "ttverif/fixtures/falsy_default.py", "the rule still matches its positive fixture", "LINT-i no longer matches its positive fixture (rule broken)")
   common.check_history_independence(ctx, ["ttconv.srt.reader", "ttconv.utils"])
